@@ -107,6 +107,10 @@ def w_model(case):
         # (the reference functions convert to complex / float themselves)
         top = top.astype(int)
         obs = obs.astype(int)
+    elif case.get('variant') == 'int_top':
+        top = top.astype(int)
+    elif case.get('variant') == 'int_obs':
+        obs = obs.astype(int)
     cov = None if case.get('cov') is None else np.array(case['cov'], dtype=float)
     c = None if case.get('dlogp') is None else \
         np.array(case['dlogp'], dtype=float).reshape(obs.shape)
@@ -151,7 +155,7 @@ def w_model(case):
     outcome = [got]
     # the caller changes its parameter / observation arrays in place and evaluates
     # again with the same array objects
-    if case.get('variant') != 'int' and len(top) > 0:
+    if case.get('variant') not in ('int', 'int_top', 'int_obs') and len(top) > 0:
         t_obj, o_obj = top.copy(), obs.copy()
         c_obj = None if cov is None else cov.copy()
         _ll(m, spec, t_obj, o_obj, c_obj)
@@ -430,6 +434,13 @@ def make_case(spec, n_ids, seed, with_c, variant='support'):
             obs[-1, -1] += 0.25
         else:
             obs[0, 0] = -0.3
+    elif variant.startswith('tg_tail'):
+        # truncated Gaussian whose untruncated mean lies z scales below zero: the
+        # individuals sit in the far tail (mass within sigma / z of zero)
+        z = float(variant.split(':')[1])
+        top = [-z * 0.8] * d + [0.8] * d
+        obs = np.array(vals.reals('c05.tail', n_ids * d, 0.01, 0.35, seed)
+                       ).reshape(n_ids, d)
     elif variant == 'tiny_sigma':
         # a tiny but valid scale: every scale parameter 1e-7, individuals within a
         # few scales of the location
@@ -447,6 +458,14 @@ def make_case(spec, n_ids, seed, with_c, variant='support'):
         k_ = [i for i, kind in enumerate(sp) if kind is not None][-1]
         obs[-1, k_] = obs[-1, k_] * (1 + 1e-9) if variant == 'near_obs' \
             else np.nextafter(obs[-1, k_], 10.0)
+    if variant == 'int_top':
+        # only the parameters are whole numbers (integer-typed); the individuals'
+        # values are generic floats
+        top = [float(max(1, round(abs(v))) + 2) for v in top]
+        obs = popvals.obs_values(spec, top, n_ids, cov, seed)
+    elif variant == 'int_obs':
+        # only the individuals' values are whole numbers (integer-typed)
+        obs = np.maximum(1, np.round(np.abs(obs)))
     if variant == 'int':
         # whole numbers inside the support; pooled / heterogeneous observations
         # follow the rounded parameters
@@ -482,6 +501,13 @@ def build(tier, seed):
             if k in ('LN', 'TG', 'P', 'H') and spec.get('centered', True):
                 elem_cases.append(make_case(spec, n_ids, seed, False, 'bad_obs'))
             elem_cases.append(make_case(spec, n_ids, seed, True, 'int'))
+            elem_cases.append(make_case(spec, n_ids, seed, True, 'int_top'))
+            if spec['kind'] == 'TG':
+                for z_ in (3, 6, 7.5, 9, 12, 20):
+                    elem_cases.append(make_case(spec, n_ids, seed, True,
+                                                'tg_tail:%s' % z_))
+            if all(k_ is None for k_ in rp.special(spec)):
+                elem_cases.append(make_case(spec, n_ids, seed, True, 'int_obs'))
             if k in ('G', 'LN', 'TG'):
                 elem_cases.append(make_case(spec, n_ids, seed, True, 'tiny_sigma'))
             if k in ('P', 'H'):
@@ -530,6 +556,7 @@ def build(tier, seed):
                  rp.Comp([rp.Cov(rp.G(1), 1), rp.LN(1)])):
         for n_ids in range(1, max_ids + 1):
             comp_cases.append(make_case(spec, n_ids, seed, True, 'int'))
+            comp_cases.append(make_case(spec, n_ids, seed, True, 'int_top'))
     for spec in (rp.Comp([rp.G(1), rp.P(1)]), rp.Comp([rp.H(1), rp.LN(1, False)]),
                  rp.Comp([rp.Cov(rp.P(1), 1), rp.G(1)])):
         for n_ids in range(1, max_ids + 1):
@@ -547,6 +574,26 @@ def build(tier, seed):
             c_ = make_case(spec, b_, seed, True)
             c_['resize_from'] = a_
             comp_cases.append(c_)
+    # one sub-model object listed several times: every occurrence is a dimension of
+    # its own
+    for parts in ([rp.LN(1), rp.P(1), rp.LN(1)], [rp.G(1), rp.G(1), rp.P(1)],
+                  [rp.G(1, False), rp.TG(1), rp.G(1, False)],
+                  [rp.P(1), rp.P(1)], [rp.LN(2), rp.LN(2)]):
+        spec = rp.Comp(parts)
+        spec['shared'] = True
+        for n_ids in range(1, max_ids + 1):
+            comp_cases.append(make_case(spec, n_ids, seed, True))
+    # a sub-model ALL of whose population parameters are fixed (it contributes
+    # individual-level entries only), first / middle / last
+    def all_fixed(inner):
+        fv = popvals.top_values(inner, 1, seed)
+        return rp.Red(inner, {i: fv[i] for i in range(len(fv))})
+    for parts in ([all_fixed(rp.G(1)), rp.LN(1)], [rp.LN(1), all_fixed(rp.TG(1)),
+                                                   rp.P(1)],
+                  [rp.G(1), all_fixed(rp.LN(2, False))],
+                  [all_fixed(rp.G(1)), all_fixed(rp.LN(1))]):
+        for n_ids in range(1, max_ids + 1):
+            comp_cases.append(make_case(rp.Comp(parts), n_ids, seed, True))
     # nested composition
     nested = rp.Comp([rp.Comp([rp.G(1), rp.P(1)]), rp.LN(1, False)])
     for n_ids in range(1, max_ids + 1):
@@ -614,3 +661,8 @@ META = {
                   'assignment per structure and seed. Reference model in '
                   'vcheck/ref/populations.py typed from the documentation.',
 }
+META['level_text'] += (
+    " Also: integer-typed parameters and / or individuals' values, truncated Gaussi"
+    'ans in the far tail (mu/sigma down to -20), one sub-model object listed severa'
+    'l times, sub-models with all parameters fixed inside compositions, wrappers fi'
+    'xed for one individual and resized, reduce vs flattened flags.')
